@@ -158,11 +158,10 @@ def main():
             if d['owner'] is None or d['owner_kind'] not in ('verify',):
                 # a failing lemma of the spec layer: proof infrastructure, not repo code
                 undecided(f'unit {un}: a lemma of the specification layer no longer verifies: {d["message"]} {d["clause"][:200]}')
-            tg = tags_of(d['clause'])
-            if tg and pid not in tg:
-                others.append(d)
-                continue
-            if not tg and scope is not None and d['owner'] not in scope:
+            # attribution: a failed obligation of function F counts against every property whose cone
+            # contains F (props.py: 'functions' narrows a unit to the listed contracts; absent = all);
+            # the [Cxx] tags on clauses are informational only
+            if scope is not None and d['owner'] not in scope:
                 others.append(d)
                 continue
             k = match_known(known, pid, d)
